@@ -125,13 +125,13 @@ def run(tier):
         "TLC enumerates every history of calls (12 operation classes) and writes through held results over the buffer model "
         "(GBMemory: 4 caller inputs, logical codes/labels, 4 lazily filled caches; negative configurations: groups/key_count "
         "hand out their caches, a result that is a view of the values, an in-place write of keys/codes).  Real histories on one "
-        "grouping object: one replay per transition of TLC's state graph (3 steps), every ordered pair of the 54 concrete methods "
+        "grouping object: one replay per transition of TLC's state graph (3 steps), every ordered pair of the %d concrete methods "
         "(call A, write through A's result by every ordinary route, call B, call A again), every method x 15 value containers x 6 "
         "mask kinds, random walks of 4..10 steps; keys over 7 containers x 7 dtypes, contiguous and chunked.  After every step "
         "the driver compares byte-level snapshots of all inputs, the logical codes/labels and every filled cache with a fresh "
         "grouping built from pristine inputs, computes np.shares_memory between the result and every buffer, and compares the "
         "result bit-exactly with the fresh grouping's; TLC accepts the history only if every observed effect is allowed.  "
-        "Binding runs (harness overwrites a cache) check the specification's Reads/Source tables against the code."))
+        "Binding runs (harness overwrites a cache) check the specification's Reads/Source tables against the code.") % len(memory.METHODS))
     steps = 4 if tier == "quick" else 5
     ck.mc("GBMemory", MC.format(n=steps, a="NoDev", w="NoDev", c="FALSE") + INVS, "buffers", workers=4)
     ck.mc_bg("GBMemory", MC.format(n=4, a="GroupsAliasDev", w="NoDev", c="FALSE") + "INVARIANT Repeatable\n", "neg_groups_hands_out_cache", expect="Repeatable", workers=1)
